@@ -563,6 +563,55 @@ def rule_yaml_pairing(ctx, rid):
     if not (head[0] == 'dict' and len(head[1]) == 1 and head[1][0][0] == C('sift_type')):
         ctx.undecided(rid, safe, 'writer payload shape', 'first element is not {sift_type: ...}: %s' % show(head))
         return
+    # the payload must carry this configuration's own type and its own option store
+    SELF_T = ('attr', S('self'), 'sift_type')
+    SELF_STORE = ('attr', S('self'), 'store')
+    c = 'writer payload == [{sift_type: own type}, converted copy of the own store]'
+    src = store_t
+    while True:
+        if src[0] == 'call' and src[1] == 'emd.sift._array_or_tuple_to_list' and dict(src[3]).get('conf') is not None:
+            src = dict(src[3])['conf']
+        elif src[0] == 'meth' and src[1] == 'copy' and not src[3]:
+            src = src[2]
+        elif src[0] == 'call' and src[1] in ('copy.deepcopy', 'copy.copy', 'builtins.dict') and len(src[2]) == 1:
+            src = src[2][0]
+        else:
+            break
+    if head[1][0][1] != SELF_T:
+        ctx.violation(rid, safe, c, 'the sift type written to YAML is %s, not the configuration\'s own type'
+                      % show(head[1][0][1])[:60], expected='self.sift_type', found=show(head[1][0][1])[:60])
+    elif src != SELF_STORE:
+        ctx.violation(rid, safe, c, 'the options written to YAML are %s, not (a converted copy of) the own store'
+                      % show(store_t)[:80], expected='self.store', found=show(src)[:60])
+    else:
+        ctx.passed(rid, safe, c)
+    # the callable built from a configuration is the configured variant with exactly the stored options
+    gf = P.func(cls + 'get_func')
+    c = 'get_func == partial(<variant named by the own type>, **own store)'
+    gexits = [e for e in Evaluator(P).run(gf) if e.kind == 'return']
+    okg = bool(gexits)
+    why = 'no return path'
+    for e in gexits:
+        v = e.value
+        good = False
+        if v[0] == 'call' and v[1] == 'functools.partial' and len(v[2]) == 1 and len(v[3]) == 1 and v[3][0][0] == '**':
+            kw = v[3][0][1]
+            while (kw[0] == 'meth' and kw[1] == 'copy') or (kw[0] == 'call' and kw[1] in ('builtins.dict', 'copy.copy',
+                                                                                         'copy.deepcopy') and len(kw[2]) == 1):
+                kw = kw[2] if kw[0] == 'meth' else kw[2][0]
+            f = v[2][0]
+            named = (f[0] == 'call' and f[1] == 'builtins.getattr' and len(f[2]) == 2 and f[2][1] == SELF_T
+                     and f[2][0][0] == 'sub' and f[2][0][1] == ('ref', 'sys.modules')) \
+                or (f[0] == 'sub' and f[2] == SELF_T and f[1][0] == 'call' and f[1][1] == 'builtins.globals')
+            good = named and kw == SELF_STORE
+        if not good:
+            okg = False
+            why = 'returns %s' % show(v)[:120]
+    if okg:
+        ctx.passed(rid, gf, c)
+    else:
+        ctx.violation(rid, gf, c, 'the callable of a configuration is not its own variant bound to its own options: '
+                      + why, expected='functools.partial(getattr(<this module>, self.sift_type), **self.store)')
     T = S('T?sift_type')
     STORE = S('STORE?')
     shape = ('list', (('dict', ((C('sift_type'), T),)), STORE))
